@@ -23,6 +23,8 @@ CHECKS = {
          'process-lifetime supervision of forked interpreter nodes + pristine-node refinement over seeded histories'),
  'C07': ('Seeded search over simulated sessions in which every operation shares one image object: full-grid, permuted point-list, subset-then-calculate, calculate-then-subset, crop-then-calculate and calculate-then-crop routes are interleaved with foreign draws / reseeds of the global NumPy RNG and restarts; every route must give, at each of its points, the value of the pristine full-grid calculation (bit for bit for the non-lens theories); the pixel draw is observed at the RNG seam (replace=False, population, seeding) and must equal the documented draw for the seed or for the generator state at the call; the shared image must never change.', '5 C07',
          'order-convergence of operation routes + RNG-seam reference + purity fingerprints over seeded histories with RNG interference and restarts'),
+ 'C20': ('Seeded search over simulated sessions that repeat identical (and different) sphere-collection constructions from one call site, interleaved with other warnings, scoped catch_warnings blocks, Spheres.add mutations, queries and restarts: exactly the overlapping warn=True constructions must emit one OverlapWarning at every position of the history (process-global warning filters / once-per-location registries are the hidden state). Analytic containment, layer, index, CSG, translation, bounding-box, voxel-volume, overlap-pair and rejection checks are evaluated on the operations of the same histories.', '5 C20',
+         'warning-state history simulation (persistent showwarning hook, no catch_warnings in the harness) + analytic reference model'),
 }
 
 def main():
